@@ -582,6 +582,42 @@ def distribute_selectors(fn, limit_rest=12, limit_arms=6):
     return _map_blocks(fn, fblock)
 
 
+def fold_library_pairs(fn):
+    """two-statement spellings of one library call (library model: networkx): `G.add_node(n)` immediately followed by
+    `G.nodes[n].update(D)` is `G.add_node(n, **D)`; followed by `G.nodes[n][k] = v` ... it is left alone."""
+    def fblock(stmts):
+        out = []
+        i = 0
+        while i < len(stmts):
+            s_ = stmts[i]
+            nxt = stmts[i + 1] if i + 1 < len(stmts) else None
+            if isinstance(s_, ast.Expr) and isinstance(s_.value, ast.Call) and isinstance(s_.value.func, ast.Attribute) and s_.value.func.attr == "add_node" and len(s_.value.args) == 1 \
+                    and not s_.value.keywords and isinstance(nxt, ast.Expr) and isinstance(nxt.value, ast.Call) and isinstance(nxt.value.func, ast.Attribute) and nxt.value.func.attr == "update" \
+                    and len(nxt.value.args) == 1 and not nxt.value.keywords:
+                recv = nxt.value.func.value
+                g, n = u(s_.value.func.value), " ".join(u(s_.value.args[0]).split())
+                if isinstance(recv, ast.Subscript) and " ".join(u(recv.value).split()) in ("%s.nodes" % g, "%s._node" % g) and " ".join(u(recv.slice).split()) == n \
+                        and isinstance(s_.value.args[0], (ast.Name, ast.Constant, ast.Attribute, ast.Subscript)):
+                    merged = ast.Expr(value=ast.Call(func=s_.value.func, args=list(s_.value.args), keywords=[ast.keyword(arg=None, value=nxt.value.args[0])]))
+                    out.append(ast.copy_location(merged, s_))
+                    i += 2
+                    continue
+            # G.add_edges_from(<pairs>) without attributes is the loop of add_edge over the pairs, in order
+            if isinstance(s_, ast.Expr) and isinstance(s_.value, ast.Call) and isinstance(s_.value.func, ast.Attribute) and s_.value.func.attr == "add_edges_from" and len(s_.value.args) == 1 \
+                    and not s_.value.keywords and not any(isinstance(n, ast.Name) and n.id in ("_u", "_v") for n in ast.walk(fn)):
+                call = ast.Call(func=ast.Attribute(value=s_.value.func.value, attr="add_edge", ctx=ast.Load()), args=[ast.Name(id="_u", ctx=ast.Load()), ast.Name(id="_v", ctx=ast.Load())], keywords=[])
+                loop = ast.For(target=ast.Tuple(elts=[ast.Name(id="_u", ctx=ast.Store()), ast.Name(id="_v", ctx=ast.Store())], ctx=ast.Store()), iter=s_.value.args[0],
+                               body=[ast.copy_location(ast.Expr(value=call), s_)], orelse=[])
+                out.append(ast.copy_location(loop, s_))
+                i += 1
+                continue
+            out.append(s_)
+            i += 1
+        return out
+    fn = _map_blocks(fn, fblock)
+    return fn
+
+
 def guard_form(fn):
     """`if c: A else: B` with A leaving the block on every path (return / raise / continue / break) -> `if c: A` followed by B: the
     guard-clause spelling is the canonical one (an inlined helper or an elif ladder of returns reads like a sequence of guards)."""
@@ -1219,6 +1255,84 @@ def fold_records(ix, f, fn):
     return fn
 
 
+def expand_with(ix, f, fn):
+    """`with cm(args) [as x]: BODY` with cm a @contextmanager generator function of the package: cm's body with `[x = <yielded value>;] BODY`
+    in place of its single `yield` statement.  An exception raised in BODY is raised at the yield, so what runs afterwards is exactly what
+    cm's own try/finally/except around the yield says - nothing more (a clean-up written after a bare `yield` does not run)."""
+    counter = [0]
+
+    def cm_of(call):
+        if not isinstance(call, ast.Call):
+            return None
+        g = None
+        if isinstance(call.func, ast.Name):
+            g = ix.funcs.get(ix.resolve_name(f.mod, call.func.id))
+        elif isinstance(call.func, ast.Attribute) and isinstance(call.func.value, ast.Name) and call.func.value.id in ("self", "cls") and f.cls:
+            g = ix.funcs.get("%s.%s" % (f.cls, call.func.attr))
+        if g is None or not getattr(g, "is_cm", False):
+            return None
+        gnode = getattr(g, "orig", None) or g.node
+        ys = [n for n in ast.walk(gnode) if isinstance(n, (ast.Yield, ast.YieldFrom))]
+        stmt_ys = [n for n in ast.walk(gnode) if isinstance(n, ast.Expr) and isinstance(n.value, ast.Yield)]
+        if len(ys) != 1 or len(stmt_ys) != 1 or any(isinstance(n, (ast.Return, ast.Global, ast.Nonlocal)) for n in ast.walk(gnode)):
+            return None
+        # the yield is not inside a loop
+        for n in ast.walk(gnode):
+            if isinstance(n, (ast.For, ast.While)) and any(x is stmt_ys[0] for x in ast.walk(n)):
+                return None
+        return g
+
+    def fblock(stmts):
+        out = []
+        for s_ in stmts:
+            if isinstance(s_, ast.With) and len(s_.items) == 1 and cm_of(s_.items[0].context_expr) is not None:
+                it = s_.items[0]
+                g = cm_of(it.context_expr)
+                gnode = copy.deepcopy(getattr(g, "orig", None) or g.node)
+                b = _bind_args(g, gnode, it.context_expr)
+                if b is None or (it.optional_vars is not None and not isinstance(it.optional_vars, ast.Name)):
+                    out.append(s_)
+                    continue
+                params, mapping = b
+                body = [x for x in gnode.body if not (isinstance(x, ast.Expr) and isinstance(x.value, ast.Constant))]
+                stores = set()
+                for x in body:
+                    stores |= _stored_names(x)
+                counter[0] += 1
+                caller = _stored_names(fn) | {n.id for n in ast.walk(fn) if isinstance(n, ast.Name)}
+                names, exprs, pre = {}, {}, []
+                for p_ in params:
+                    if p_ in stores:
+                        names[p_] = "_w%d_%s" % (counter[0], p_)
+                        pre.append(ast.copy_location(ast.Assign(targets=[ast.Name(id=names[p_], ctx=ast.Store())], value=copy.deepcopy(mapping[p_])), s_))
+                    else:
+                        exprs[p_] = mapping[p_]
+                for nm in stores - set(params):
+                    if nm in caller:
+                        names[nm] = "_w%d_%s" % (counter[0], nm)
+                ren = _Rename(names, exprs)
+                body = [ren.visit(x) for x in body]
+                inner = list(s_.body)
+
+                class Y(ast.NodeTransformer):
+                    def visit_Expr(self, node):
+                        if isinstance(node.value, ast.Yield):
+                            first = []
+                            if it.optional_vars is not None:
+                                first = [ast.copy_location(ast.Assign(targets=[ast.Name(id=it.optional_vars.id, ctx=ast.Store())],
+                                                                      value=node.value.value if node.value.value is not None else ast.Constant(value=None)), s_)]
+                            return first + inner
+                        return node
+                new = pre + [y for x in body for y in (lambda r: r if isinstance(r, list) else [r])(Y().visit(x))]
+                for x in new:
+                    ast.fix_missing_locations(x)
+                out.extend(new)
+                continue
+            out.append(s_)
+        return out
+    return _map_blocks(fn, fblock)
+
+
 def fold_constants(fn, consts, single):
     strconsts = {}
     local = _stored_names(fn)
@@ -1315,6 +1429,13 @@ def fold_stdlib(ix, f, fn, consts, single):
                     return ast.copy_location(ast.Call(func=ast.Attribute(value=node.args[0], attr=node.func.args[0].value, ctx=ast.Load()), args=[], keywords=[]), node)
                 if inner == "attrgetter" and isinstance(node.func.args[0], ast.Constant) and isinstance(node.func.args[0].value, str) and node.func.args[0].value.isidentifier():
                     return ast.copy_location(ast.Attribute(value=node.args[0], attr=node.func.args[0].value, ctx=ast.Load()), node)
+            # np.reshape(a, (r, c)) / a.reshape((r, c))  ->  a.reshape(r, c)   (library model: function and method spellings of one operation)
+            if u(node.func) in ("np.reshape", "numpy.reshape") and len(node.args) == 2 and not node.keywords and isinstance(node.args[0], (ast.Name, ast.Attribute, ast.Subscript)):
+                shape = node.args[1]
+                return ast.copy_location(ast.Call(func=ast.Attribute(value=node.args[0], attr="reshape", ctx=ast.Load()),
+                                                  args=list(shape.elts) if isinstance(shape, ast.Tuple) else [shape], keywords=[]), node)
+            if isinstance(node.func, ast.Attribute) and node.func.attr == "reshape" and len(node.args) == 1 and isinstance(node.args[0], ast.Tuple) and not node.keywords:
+                node.args = list(node.args[0].elts)
             # zip(xs, islice(xs, 1, None)) reads the same pairs as zip(xs, xs[1:])
             if isinstance(node.func, ast.Name) and node.func.id == "zip":
                 for i_, a_ in enumerate(node.args):
@@ -1344,6 +1465,7 @@ def fold_stdlib(ix, f, fn, consts, single):
     return fn
 
 
+CM_DECORATORS = frozenset("contextlib.contextmanager contextmanager".split())
 TRANSPARENT_DECORATORS = frozenset("staticmethod classmethod property abstractmethod abc.abstractmethod functools.wraps wraps typing.no_type_check no_type_check "
                                    "typing.final final typing.override override".split())
 MEMO_DECORATORS = frozenset("functools.lru_cache lru_cache functools.cache cache functools.cached_property cached_property".split())
@@ -1412,6 +1534,9 @@ def compose_decorators(ix):
                 continue
             if name in MEMO_DECORATORS:
                 f.memo.append(name)
+                continue
+            if name in CM_DECORATORS:
+                f.is_cm = True          # read where it is used: `with f(...): BODY` is f's body with BODY in place of the yield (expand_with)
                 continue
             dq = ix.resolve_name(f.mod, name) if "." not in name else None
             if dq is None and f.cls and name.count(".") == 0:
@@ -2095,6 +2220,7 @@ def normal_form(ix, f, keep):
     consts, single = ix.const_env(f.mod)
     fn = copy.deepcopy(f.node)
     passes = [
+        lambda t: expand_with(ix, f, t),
         lambda t: desugar_match(t),
         lambda t: desugar_walrus(t),
         lambda t: dispatch_comprehensions(t),
@@ -2115,6 +2241,7 @@ def normal_form(ix, f, keep):
         lambda t: propagate_block_aliases(t, ix.accessor_names()),
         lambda t: propagate_templates(t),
         lambda t: eliminate_temporaries(t),
+        lambda t: fold_library_pairs(t),
         lambda t: guard_form(t),
     ]
     prev = None
